@@ -27,6 +27,7 @@ Qed.
 (* the documented result of every model-level copy-producing call, as a statement about energies *)
 Theorem cop_model_result K h c p o' :
   apply_cop K h c (OModel p) = Some o' ->
+  match c with CGiven x => o' = x | _ =>
   exists q, o' = OModel q /\
     match c with
     | CCopy => q = p
@@ -39,8 +40,9 @@ Theorem cop_model_result K h c p o' :
     | CAddConst c0 => forall s, energy q s = energy p s + c0
     | CAdd j => exists b, model_of h j = Some b /\ forall s, energy q s = energy p s + energy b s
     | CSub j => exists b, model_of h j = Some b /\ forall s, energy q s = energy p s - energy b s
-    | CSet _ | CConcat _ => False
-    end.
+    | CSet _ | CConcat _ | CGiven _ => False
+    end
+  end.
 Proof.
   destruct c; cbn [apply_cop]; intros H; try discriminate;
     try (inversion H; subst o'; eexists; split; [reflexivity|]).
@@ -56,6 +58,7 @@ Proof.
     eexists; split; [reflexivity|]. exists b. split; [reflexivity|]. intros s. apply energy_padd.
   - destruct (model_of h other) as [b|] eqn:E; [|discriminate]. inversion H; subst o'.
     eexists; split; [reflexivity|]. exists b. split; [reflexivity|]. intros s. apply energy_psub.
+  - inversion H. reflexivity.
 Qed.
 
 (* sample sets: the result IS the SSet.v function of the receiver (so every C14 theorem applies) *)
@@ -65,6 +68,7 @@ Theorem cop_set_result K h c s o' :
   | CCopy => o' = OSet s
   | CSet o => exists s', apply K o s = Ok s' /\ o' = OSet s'
   | CConcat js => exists l s', sets_of h js = Some l /\ concat_ss l s = Ok s' /\ o' = OSet s'
+  | CGiven x => o' = x
   | _ => False
   end.
 Proof.
@@ -73,6 +77,7 @@ Proof.
   - destruct (apply K o s) as [s'|s'] eqn:E; [|discriminate]. inversion H. exists s'. split; reflexivity.
   - destruct (sets_of h others) as [l|] eqn:E1; [|discriminate].
     destruct (concat_ss l s) as [s'|s'] eqn:E2; [|discriminate]. inversion H. exists l, s'. repeat split; assumption.
+  - inversion H. reflexivity.
 Qed.
 
 (* ---------- heap facts ---------- *)
@@ -97,9 +102,9 @@ Proof.
   - rewrite app_length. lia.
   - destruct (nth_error h src) as [x|]; [|lia]. destruct (apply_cop K h c x); [rewrite app_length; lia|lia].
   - destruct (nth_error h i); [rewrite hset_length; lia|lia].
-  - destruct (nth_error h ci) as [[p|s|ob cs]|]; try lia. destruct (nth_error h mi) as [[p|s|ob' cs']|]; try lia.
+  - destruct (nth_error h ci) as [[p|s|ob cs|vl]|]; try lia. destruct (nth_error h mi) as [[p|s|ob' cs'|vl']|]; try lia.
     destruct copy; rewrite ?hset_length; lia.
-  - destruct (nth_error h ci) as [[p|s|ob cs]|]; try lia. destruct (nth_error h mi) as [[p|s|ob' cs']|]; try lia.
+  - destruct (nth_error h ci) as [[p|s|ob cs|vl]|]; try lia. destruct (nth_error h mi) as [[p|s|ob' cs'|vl']|]; try lia.
     rewrite hset_length. lia.
 Qed.
 
@@ -145,7 +150,7 @@ Proof.
   assert (hstep K h (HCopy src CCopy) = h ++ [x]) as -> by (cbn [hstep apply_cop]; rewrite Hx; reflexivity).
   cbn [hstep]. rewrite nth_error_app2 by lia. rewrite Nat.sub_diag. cbn [nth_error].
   assert (apply_iop K e x = y) as ->.
-  { destruct c; inversion Hc; subst e; destruct x as [p|s|ob cs]; cbn [apply_cop apply_iop] in *; try discriminate;
+  { destruct c; inversion Hc; subst e; destruct x as [p|s|ob cs|vl]; cbn [apply_cop apply_iop] in *; try discriminate;
       try (inversion Hy; reflexivity).
     destruct (apply K o s); [inversion Hy; reflexivity|discriminate]. }
   clear. induction h as [|a r IH]; cbn [app length hset]; [reflexivity|]. f_equal. exact IH.
@@ -216,16 +221,16 @@ Proof.
     + apply copy_receiver_unchanged. assumption.
     + apply edit_frame. intros E. apply Ho. exact E.
     + cbn [edits_cell] in Ho. cbn [hstep].
-      destruct (nth_error h ci) as [[p|s|ob cs]|] eqn:Ec; try reflexivity.
-      destruct (nth_error h mi) as [[p|s|ob' cs']|] eqn:Em; try reflexivity.
+      destruct (nth_error h ci) as [[p|s|ob cs|vl]|] eqn:Ec; try reflexivity.
+      destruct (nth_error h mi) as [[p|s|ob' cs'|vl']|] eqn:Em; try reflexivity.
       destruct copy.
       * apply hset_other. intros E. apply Ho. left. exact E.
       * rewrite !hset_other; [reflexivity| |].
         -- intros E. apply Ho. left. exact E.
         -- intros E. apply Ho. right. split; [reflexivity|exact E].
     + cbn [edits_cell] in Ho. cbn [hstep].
-      destruct (nth_error h ci) as [[p|s|ob cs]|] eqn:Ec; try reflexivity.
-      destruct (nth_error h mi) as [[p|s|ob' cs']|] eqn:Em; try reflexivity.
+      destruct (nth_error h ci) as [[p|s|ob cs|vl]|] eqn:Ec; try reflexivity.
+      destruct (nth_error h mi) as [[p|s|ob' cs'|vl']|] eqn:Em; try reflexivity.
       apply hset_other. exact Ho.
   - pose proof (hstep_length_mono K h o). lia.
   - intros o' Ho'. apply H. right. assumption.
@@ -310,5 +315,6 @@ Proof. cbn [model_viewfn snd fst]. split; [apply b2s_energy|apply s2b_energy]. Q
 
 (* ---------- tie to the source ---------- *)
 Theorem copy_api_matches :
-  gen_copy_api = modeled_copy_api /\ gen_sampleset_functions = modeled_sampleset_functions.
-Proof. split; reflexivity. Qed.
+  gen_copy_api = modeled_copy_api /\ gen_copy_constructors = modeled_copy_constructors
+  /\ gen_sampleset_functions = modeled_sampleset_functions.
+Proof. repeat split; reflexivity. Qed.
